@@ -68,6 +68,13 @@ def _diff(a, b):
 def run(tier, seed, replay=None):
     run = Run("C10", tier, seed, RULE)
     drv = Driver()
+
+    def still_fails(c):
+        probe = Run("C10", tier, seed, RULE)
+        files = [(rel, cr.blob_from_token(t)) for rel, t in c["files"]]
+        run_case(probe, Driver(), files, c["pl"], c["single"], "shrink")
+        return any(f.kind == "impl-vs-spec" for f in probe.failures)
+    run.shrinker = still_fails
     if replay:
         c = replay["case"]
         if c.get("scaled"):
